@@ -1,1 +1,61 @@
-From Dagrt Require Import GenLang Lang.
+(* C02 -- property theorems only.  The builder model takes the two read-set shape
+   switches from gen/GenLang.v; the theorems type-check only for the repaired shapes
+   (both true), for the defective shape proofs/BuilderExamples.lhs_shape_refuted holds. *)
+From Coq Require Import List String Permutation.
+From Dagrt Require Import GenLang Lang BuilderCore BuilderInv Builder Sched SchedProofs BuilderProofs.
+
+Definition is_state_var : var -> bool := is_state_of state_exact state_prefixes.
+Notation build_model := (build lang_lhs_sub_reads lang_loop_bound_reads is_state_var exec_state_token).
+
+(* every order of the statements that respects the recorded dependency edges gives the same
+   events, the same final values of all variables and the same stop reason as program order *)
+Theorem C02_all_schedules : forall F del_guarded p b s0 sched,
+  build_model p = BOk b ->
+  loopvars_ok (b_stmts b) s0 ->
+  Permutation (seq 0 (List.length (b_stmts b))) sched ->
+  respects (b_stmts b) sched ->
+  req (run_ids F del_guarded (b_stmts b) sched (RRun s0 nil))
+      (run_list F del_guarded (b_stmts b) (RRun s0 nil)).
+Proof.
+  exact (fun F g p b s0 sched Hb Hl Hp Hr =>
+           eq_ind _ (fun X => req (run_ids F g (b_stmts b) sched (RRun s0 nil)) X)
+                  (all_schedules F g is_state_var exec_state_token p b s0 sched Hb Hl Hp Hr) _
+                  (run_ids_seq F g (b_stmts b) (RRun s0 nil))).
+Qed.
+Print Assumptions C02_all_schedules.
+
+(* every recorded edge points to an earlier statement: program order is admissible, the graph acyclic *)
+Theorem C02_edges_backward : forall p b i st d,
+  build_model p = BOk b -> nth_error (b_stmts b) i = Some st -> In d (sdeps st) -> d < i.
+Proof. exact (edges_backward is_state_var exec_state_token). Qed.
+Print Assumptions C02_edges_backward.
+
+(* two statements that conflict on their read/write sets (guards, subscripts, loop bounds,
+   call arguments, yielded values included) are ordered by the transitive closure of the edges *)
+Theorem C02_conflicts_ordered : forall p b i j a c,
+  build_model p = BOk b -> i < j ->
+  nth_error (b_stmts b) i = Some a -> nth_error (b_stmts b) j = Some c ->
+  ~ indep exec_state_token a c -> prec (out (b_core b)) i j.
+Proof. exact (conflicts_ordered is_state_var exec_state_token). Qed.
+Print Assumptions C02_conflicts_ordered.
+
+(* externally visible statements keep their order relative to every other statement *)
+Theorem C02_barrier_ordered : forall p b i j a c,
+  build_model p = BOk b -> i < j ->
+  nth_error (b_stmts b) i = Some a -> nth_error (b_stmts b) j = Some c ->
+  barrier a = true \/ barrier c = true -> prec (out (b_core b)) i j.
+Proof. exact (barrier_ordered is_state_var exec_state_token). Qed.
+Print Assumptions C02_barrier_ordered.
+
+(* names handed out by the builder were never seen before and are remembered *)
+Theorem C02_fresh_not_seen : forall b prefix nm b',
+  fresh b prefix = Some (nm, b') ->
+  ~ In nm (b_seen b) /\ In nm (b_seen b') /\ incl (b_seen b) (b_seen b').
+Proof. exact fresh_not_seen. Qed.
+Print Assumptions C02_fresh_not_seen.
+
+Theorem C02_seen_monotone : forall b c b',
+  bstep lang_lhs_sub_reads lang_loop_bound_reads is_state_var exec_state_token b c = BOk b' ->
+  incl (b_seen b) (b_seen b').
+Proof. exact (seen_monotone is_state_var exec_state_token). Qed.
+Print Assumptions C02_seen_monotone.
